@@ -597,6 +597,29 @@ func (e *Engine) applyContract(st *State, fc *FuncContract, callee *ssa.Function
 		}
 		e.oblige(st, fmt.Sprintf("requires(%s)#%d", name, i), instr.Pos(), d, e.evalBool(env, c))
 	}
+	// the callee may abort (panic) under its `aborts when` conditions: that must be allowed by the
+	// function under verification; afterwards the call has returned normally, so the condition is false
+	if len(fc.Aborts) > 0 && !fc.NoReturn {
+		var alts []string
+		for _, c := range fc.Aborts {
+			alts = append(alts, e.evalBool(env, c))
+		}
+		cond := or(alts...)
+		if st.dry == nil {
+			root := st.frames[0]
+			allowed := "false"
+			if root.fc != nil && len(root.fc.Aborts) > 0 {
+				var ra []string
+				for _, c := range root.fc.Aborts {
+					renv := e.envFor(st, root, nil)
+					ra = append(ra, e.evalBool(renv, c))
+				}
+				allowed = or(ra...)
+			}
+			e.oblige(st, "safety:panic", instr.Pos(), "callee "+name+" may abort", implies(cond, allowed))
+		}
+		st.assume(not(cond))
+	}
 	// frame (the callee may have allocated: advance the allocation clock first so that havocked
 	// locations are bounded by the post-call time)
 	var locs []Loc
@@ -659,6 +682,24 @@ func (e *Engine) unknownCall(st *State, callee *ssa.Function, key, name string, 
 		first = true // dynamic function value
 	}
 	e.havocAlive(st)
+	pkgPath := ""
+	if callee != nil {
+		f := callee
+		for f.Parent() != nil {
+			f = f.Parent()
+		}
+		if f.Pkg != nil {
+			pkgPath = shortPkg(f.Pkg.Pkg.Path())
+		} else if f.Object() != nil && f.Object().Pkg() != nil {
+			pkgPath = shortPkg(f.Object().Pkg().Path())
+		}
+	} else if call.IsInvoke() && call.Method.Pkg() != nil {
+		pkgPath = shortPkg(call.Method.Pkg().Path())
+	}
+	if e.cs.PurePkgs[pkgPath] {
+		st.note("call into package assumed effect-free (purepkg): " + pkgPath)
+		return e.freshResult(st, sanitize(name), resType)
+	}
 	if first {
 		st.note("first-party call without contract: " + key + " (whole heap havocked)")
 		e.havocAllHeap(st)
